@@ -94,6 +94,8 @@ pub fn start_job(command: Arc<Command>) -> (Job, JoinHandle<()>) {
 										if let Err(err) = command_state.spawn(command.clone(), spawnable) {
 											let fut = error_handler.call(sync_io_error(err));
 											fut.await;
+											trace!("raising graceful restart's flag after error");
+											flag.raise();
 											return Loop::Skip;
 										}
 
